@@ -63,8 +63,9 @@ def render(ctx, tpl, ds, de):
         elif p[0] == 'pc':
             # a closing tag cut off inside its end delimiter (the file ends there): text - unless `keep` covers the whole delimiter
             keep = p[2]
-            src += list(ds) + [47] + list(p[1].encode()) + [32] + list(de)[:keep]
-            if keep >= len(de):
+            dechars = bytes(de).decode()            # (the cut is made between characters of the end delimiter, never inside one)
+            src += list(ds) + [47] + list(p[1].encode()) + [32] + list(dechars[:keep].encode())
+            if keep >= len(dechars):
                 parts.append(dict(kind='close', name=p[1], start=st, end=len(src)))
             else:
                 parts.append(dict(kind='lit', start=st, end=len(src)))
